@@ -17,7 +17,7 @@ CHECKS = {
 }
 
 PM = "ParsleyMachine"
-PMNOTE = ("bounded grammar families (template families F1/F2/F3/NM/HID + catalogue) and input lengths <= 3-4 for the exhaustive part, random "
+PMNOTE = ("bounded grammar families (template families F1/F2/F3/NM/HID/HID2/HIDR/OPT/OPTLR/TLR/TSH/SNG/LRF/LRN/LINES/SEPC + catalogue) and input lengths <= 3-4 for the exhaustive part, random "
           "grammars <= 3 nonterminals and inputs <= 6 for the recorded traces; runs cut by the step/result budget are counted, not judged; "
           "TLC and the probes (pass-through wrappers using only exported API) are trusted")
 CHECKS.update({
@@ -51,7 +51,7 @@ CHECKS.update({
              "families (empty files, CRLF, lone CR, CR CR LF, no trailing newline) and checks NoOverlap, Injective, RoundTrip, UnknownOutside; every "
              "state is exported with the expected answer of every query and replayed on fresh real file sets in two query orders; random larger "
              "file sets recorded from the real code are validated by FileSetTrace.",
-        note="exhaustive only over contents <= 3-4 bytes of {a, LF, CR} and <= 3 files; random sets up to 8 files x 300 bytes",
+        note="exhaustive only over contents <= 3-4 bytes of {a, LF, CR} and <= 3 files, and one file <= 4-5 bytes with the two bytes of a multi-byte rune; random sets up to 8 files x 300 bytes",
         technique="TLA+ state machine of the file set + TLC exhaustive export replayed into the real FileSet/File + TLC trace validation of recorded real file sets", ref="5 (C11)"),
 })
 
@@ -96,10 +96,10 @@ CHECKS.update({
 
 CHECKS.update({
     "C17": dict(engine=PM,
-        text="C17MC runs ParsleyMachine on the six unambiguous families of the property for n <= 32-64 and its call counter must equal the real Context.CallCount() for "
-             "the same grammar and input (binding); the real combinators are measured twice per (family, n) for n up to 256-512 and C17Trace (TLC) checks the "
+        text="C17MC runs ParsleyMachine on the unambiguous families of the property (plus a two-closer bracket family), each on inputs of its language and on inputs outside it (unclosed nest, dangling operator / separator, foreign last byte), for n <= 32-64 and its call counter must equal the real Context.CallCount() for "
+             "the same grammar and input (binding); the real combinators are measured twice per (family, n) for n up to 512-1024, one cold process per family, and C17Trace (TLC) checks the "
              "doubling predicate calls(2n) <= 16 calls(n), determinism and acceptance on the measured table.",
-        note="one input shape per family and size; the bound is the doubling test of the property, not an asymptotic proof; a run that exceeds 40x the calls of the previous size is stopped and judged on the count reached",
+        note="one input shape per family and size; the bound is the doubling test of the property, not an asymptotic proof; a run that exceeds 16x the calls of the half size is stopped and judged on the count reached",
         technique="TLA+ machine call counter bound to real call counts + TLC-judged doubling predicate on the measured table", ref="5 (C17)"),
 })
 
@@ -132,7 +132,7 @@ CHECKS.update({
     "C16": dict(engine="JsonDoc",
         text="JsonDoc.tla is a document algebra: abstract value -> token rendering with a whitespace choice per gap -> optional corruption -> class -> obligation. TLC "
              "exports every document of a bounded family (all scalars of the table alone and in arrays, containers up to depth 2, whitespace patterns, every applicable "
-             "corruption); random documents up to depth 6 are proposed by the harness and rendered / classified by the specification; the example parser and "
+             "corruption); random documents up to depth 6 - with scalars given by their source text, which the specification classifies by the syntax rules of the supported subset (LitClass) - are proposed by the harness and rendered / classified by the specification; the example parser and "
              "encoding/json are run on each text and JsonDocTrace checks the obligation of the document's class.",
         note="the example parser is a black box; scalar equality is encoding/json's (UseNumber); documents up to ~2 kB",
         technique="TLA+ document algebra with TLC as the only renderer/classifier + differential observations against encoding/json judged by TLC", ref="5 (C16)"),
